@@ -1,9 +1,10 @@
 """Trigger predicates of the open C02 findings (decide from the case; confirm by removing the feature).
 
-No C02 finding is open: the four defects this check found (implicit intersection fused after an edit, operator
+No C02 finding is open.  The five defects this check found (implicit intersection fused after an edit, operator
 setter without parentheses / UnboundLocalError, interpolate shortcut in a geometry, colon in the continuation
-indent) were repaired in /repo (findings/C02.fixed.json) and their replays are regression cases in corpus/C02.
-The helpers below are what a new entry's predicate would be built from."""
+indent, repeat shortcut after a tree) were repaired in /repo (findings/C02.fixed.json); their replays are regression
+cases in corpus/C02.  The predicates below stay as the pattern for a new entry (decide from the case, confirm by
+removing the feature)."""
 
 
 def has_op(p, ops):
@@ -30,3 +31,21 @@ def passes_on_one_line(case):
     except Exception:
         return False
     return C02.full_check(flat) is None
+
+
+def C02_repeat_shortcut_in_tree(case, params):
+    """F-C02-geometry-repeat-shortcut: a repeat shortcut (nR / R) inside a cell geometry that follows more than one
+    number.  Attributed when the geometry text that was read contains a repeat token and the same case with the
+    repeat written out (the expanded text, which the case carries as base_read_lines) passes the oracle."""
+    import importlib
+    import re
+    C02 = importlib.import_module("props.C02")
+    c = case.get("case") or {}
+    lines = c.get("base_lines")
+    if not lines or not c.get("base_read_lines"):
+        return False
+    if not any(re.search(r"(^|\s)\d*[rR](\s|$)", l) for l in lines):
+        return False
+    expanded = dict(c, base_lines=c["base_read_lines"])
+    expanded.pop("base_read_lines")
+    return C02.judge(expanded, C02.observe(expanded)) is None
